@@ -17,10 +17,18 @@ import random
 
 from ..core import Ctx, MachineryError, digest
 from ..forkpool import prepare_imports, run_cases
-from ..lattice import ALL, EMBEDDINGS, EXACT
+from fractions import Fraction as F
+
+from ..lattice import ALL, EMBEDDINGS, EXACT, Emb
 from .. import tlc
 
 KS = [-3, -2, -1, 0, 1, 2, 3]
+# The statement quantifies over ALL centres and radii and every clause is relative to rmax^2, so the same lattice sweep
+# must give the same judgement at any magnitude.  Besides the shared embeddings the TLC-generated sweeps run at three
+# extreme lattice steps: 1e-6 ("micro", shared), 1e-9 ("nano", local: every lattice distance of the sweeps is below
+# 1e-6 there) and 1e9 ("huge", shared).  They expose absolute thresholds in a scale-free formula.
+EMBS = dict(EMBEDDINGS, nano=Emb("nano", F(1, 10 ** 9)))
+MAGNITUDES = ["micro", "nano", "huge"]
 UNIT = 1e8              # areas are sent to TLC in units of 1e-8 * rmax^2
 CLAMP = 1_000_000_000   # |n| is clamped so that differences stay inside TLC's 32-bit integers
 CHAIN = ("accuracy_monotone", "accuracy_lipschitz")
@@ -64,7 +72,7 @@ def run_case(case):
     sx, sy = case["sg"]
     out = {}
     for en in case["embs"]:
-        emb = EMBEDDINGS[en]
+        emb = EMBS[en]
         R1, R2 = emb.length(r1), emb.length(r2)
         rmax = float(max(R1, R2))
         scale = UNIT / (rmax * rmax)
@@ -269,7 +277,7 @@ def run(ctx: Ctx) -> int:
         for p in g["pts"]:   # the harness' reporting label and the spec's Case must be the same function
             if _lattice_case(g["r1"], g["r2"], p[2]) != p[3]:
                 raise MachineryError(f"case label mismatch harness/spec at {g['r1']},{g['r2']},{p}")
-        cases.append({"r1": g["r1"], "r2": g["r2"], "pts": pts, "origin": "tlc"})
+        cases.append({"r1": g["r1"], "r2": g["r2"], "pts": pts, "origin": "tlc", "embs": ALL + MAGNITUDES})
     if not cases:
         raise MachineryError("TLC generated no cases")
     n_tlc = len(cases)
@@ -277,12 +285,15 @@ def run(ctx: Ctx) -> int:
     cases += random_cases(rng, 200 if tier == "quick" else 2500)
     decide(ctx, cases)
     ctx.extra["embeddings"] = ALL
+    ctx.extra["magnitude_embeddings_for_tlc_sweeps"] = MAGNITUDES
     ctx.extra["ulp_offsets"] = KS
     ctx.extra["sweeps_from_tlc"] = n_tlc
     ctx.extra["sweeps_random"] = len(cases) - n_tlc
     ctx.extra["uncovered"] = ["accuracy (1e-5 rmax^2) of the lens formula at generic interior points: TLC has no acos; "
                               "there only the Lipschitz enclosure, monotonicity and the drop bound are decided"]
     ctx.assumptions += [
+        "every clause is relative to rmax^2, so the TLC-generated sweeps are also run at lattice steps 1e-6, 1e-9 and 1e9 (micro, nano, "
+        "huge): an absolute threshold in the code (a guard like d < 1e-6) is invisible at unit scale and decisive there",
         "float dimension sampled: 8 embeddings of the integer lattice x 7 ulp shifts of the second centre along the line of centres, not enumerated",
         "areas pulled back as round(area / rmax^2 * 1e8); tolerances in TLA+: accuracy 1e-5 rmax^2 (1000 units), symmetry and bounds 1e-6 rmax^2 (100 units), 3 units slack for the rounding of the constants and the <= 3 ulp shift",
         "monotone / Lipschitz / enclosure clauses are consequences of the accuracy clause (two values within 1e-5 rmax^2 of a non-increasing 2*rmin-Lipschitz function), judged with 2e-5 rmax^2",
